@@ -191,11 +191,10 @@ func opcodeAtomic(high byte, mid byte, low byte) opcode.Opcode {
 }
 
 func addrAddImm(a model.Addr, imm int32) model.Addr {
-	if imm >= 0 {
-		return a + model.Addr(imm)
-	} else {
-		return a - model.Addr(-imm)
-	}
+	// Sign extension of imm to the width of address makes the wrapping
+	// unsigned addition subtract magnitude of a negative immediate. Negation
+	// of imm would overflow for the smallest immediate.
+	return a + model.Addr(int64(imm))
 }
 
 func immConst(t immType, i instruction, w expr.Width) expr.Const {
